@@ -20,7 +20,10 @@ def get_circle_point_list(center, normal, radius, n=10):
         )
     import math, copy
 
-    if normal.angle(x_unit_vector()) < SMALL_ANGLE:
+    # the x axis cannot serve as base vector when the normal is (nearly)
+    # parallel to it, whichever way the normal points
+    angle_to_x = normal.angle(x_unit_vector())
+    if min(angle_to_x, math.pi - angle_to_x) < SMALL_ANGLE:
         base_vector = y_unit_vector()
         if normal.angle(y_unit_vector()) < SMALL_ANGLE:
             raise ValueError("Bug detected! please contact the author")
